@@ -432,6 +432,6 @@ func TestVerif_C41_Throttler(t *testing.T) {
 			r.Outcome(P, sc.name+": clock went backwards")
 		}
 	}
-	r.Sample(P, map[string]any{"scenario": "seconds", "timeline": []string{"+0s:T", "+29s:T", "+1s:Q(rand=0)"}, "expected": "the first throttle is exactly 30 s old at the query: throttles=1, accepts=0, probability 1/9 > 0 so the request is throttled"})
-	r.Sample(P, map[string]any{"scenario": "seconds", "timeline": []string{"+31s:A", "-31s:T", "+0s:Q(rand=0)"}, "expected": "clock went back 31 s: accepts counter window ends at +31s, throttles counter window at 0s"})
+	r.Sample(P, map[string]any{"scenario": "seconds", "timeline": []string{"0s:T", "29s:T", "1s:Q(rand=0)"}, "expected": "the first throttle is exactly 30 s old at the query: throttles=1, accepts=0, probability 1/9 > 0 so the request is throttled"})
+	r.Sample(P, map[string]any{"scenario": "seconds", "timeline": []string{"31s:A", "-31s:T", "0s:Q(rand=0)"}, "expected": "clock went back 31 s: accepts counter window ends at +31s, throttles counter window at 0s"})
 }
